@@ -84,6 +84,13 @@ type outcome struct {
 
 // renderOnce renders spec once with the given faults.
 func renderOnce(u *Universe, spec *Node, k knobs, f Fault, failAt, cancelAt int, preCancel bool, hook func(kind, key string), park func(string, int)) outcome {
+	return renderInto(nil, u, spec, k, f, failAt, cancelAt, preCancel, hook, park)
+}
+
+// renderInto is renderOnce with an optional existing writer object: a caller may well
+// render again into the very writer value whose previous render failed (a reused
+// bytes.Buffer, a retried response) after it has recovered.
+func renderInto(reuse *core, u *Universe, spec *Node, k knobs, f Fault, failAt, cancelAt int, preCancel bool, hook func(kind, key string), park func(string, int)) outcome {
 	env := newEnv(u)
 	env.FailAt, env.CancelAt, env.Hook = failAt, cancelAt, hook
 	ctx, cancel := context.WithCancel(context.Background())
@@ -92,7 +99,11 @@ func renderOnce(u *Universe, spec *Node, k knobs, f Fault, failAt, cancelAt int,
 	if preCancel {
 		cancel()
 	}
-	w := &core{fault: f, sticky: k.Sticky, park: park}
+	w := reuse
+	if w == nil {
+		w = &core{}
+	}
+	*w = core{fault: f, sticky: k.Sticky, park: park}
 	c := env.Build(spec)
 	var err error
 	if k.OwnBuf {
@@ -152,10 +163,16 @@ func c10World(rc *kernel.RunCtx) {
 
 	fired := 0
 	evals := 0
+	var lastW *core
 	after := func(what string) bool {
-		// (d) a failed render never alters the result of a later render on the same pools
+		// (d) a failed render never alters the result of a later render on the same pools -
+		// alternately into a fresh writer and into the very writer object that just failed
 		i := evals % len(specs)
-		o := renderOnce(u, specs[i], kn, Fault{}, -1, -1, false, nil, nil)
+		var reuse *core
+		if evals%2 == 1 {
+			reuse = lastW
+		}
+		o := renderInto(reuse, u, specs[i], kn, Fault{}, -1, -1, false, nil, nil)
 		if o.err != nil {
 			rc.Fail("C10/later-render-error", "after %s on %s: clean render of %s returned %v", what, spec, specs[i], o.err)
 			return false
@@ -168,6 +185,7 @@ func c10World(rc *kernel.RunCtx) {
 	}
 	check := func(what string, o outcome, cause error, mustFail bool) bool {
 		evals++
+		lastW = o.w
 		if o.err == nil {
 			if mustFail {
 				rc.Fail("C10/fault-swallowed:"+strings.SplitN(what, "@", 2)[0], "%s on %s (knobs %+v): Render returned nil; writer got %d of %d bytes", what, spec, kn, len(o.got), len(D))
